@@ -17,7 +17,7 @@ var sinkSpecs = []struct{ pkg, name string }{
 	{"pkg/core", "KVStore.Set"}, {"pkg/core", "KVStore.Delete"},
 	{"pkg/core", "DB.CreateVectorIndex"}, {"pkg/core", "DB.DeleteVectorIndex"},
 	{"pkg/core", "DB.AddMetadata"}, {"pkg/core", "DB.AddMetadataUnlocked"}, {"pkg/core", "DB.DeleteMetadata"},
-	{"pkg/core", "DB.AddEdge"}, {"pkg/core", "DB.RemoveEdge"}, {"pkg/core", "DB.Compress"},
+	{"pkg/core", "DB.AddEdge"}, {"pkg/core", "DB.RemoveEdge"}, {"pkg/core", "DB.Compress"}, {"pkg/core", "DB.RemoveGraphNodesWithPrefix"},
 	{"pkg/core", "VectorIndex.Add"}, {"pkg/core", "VectorIndex.Delete"},
 	{"pkg/core/hnsw", "Index.Add"}, {"pkg/core/hnsw", "Index.AddBatch"}, {"pkg/core/hnsw", "Index.AddBatchFast"}, {"pkg/core/hnsw", "Index.Delete"},
 	{"pkg/core/hnsw", "Index.SetAutoLinks"}, {"pkg/core/hnsw", "Index.SetMemoryConfig"}, {"pkg/core/hnsw", "Index.UpdateMaintenanceConfig"},
@@ -134,6 +134,23 @@ func (w *World) staticCallersOf(fn *ssa.Function) map[*ssa.Function]bool {
 		}
 	}
 	return w.callers[fn]
+}
+
+// helperDecls: the declarations of the helpers extracted from fi (see extractedHelpers), for the rules that read syntax.
+func (w *World) helperDecls(fi *FuncInfo) []*FuncInfo {
+	top := w.SSAFunc(fi.Obj)
+	if top == nil {
+		return nil
+	}
+	var out []*FuncInfo
+	for _, h := range w.extractedHelpers(top) {
+		if o, ok := h.Object().(*types.Func); ok {
+			if d := w.Decl(o); d != nil && d.Decl.Body != nil {
+				out = append(out, d)
+			}
+		}
+	}
+	return out
 }
 
 // extractedHelpers: the unexported functions of fn's own package that fn (or a function literal of it) calls statically
@@ -379,6 +396,11 @@ func ruleJRN12(w *World, r *Report, scope func(sc sinkCall) bool) {
 				}
 			}
 		}
+		if !ok && sc.fn.Parent() == nil {
+			// (e) the apply phase is a function of its own: every call of it is preceded by a successful journal write, or by
+			// the successful call of the journaling phase
+			ok = phaseJournaled(w, sc.fn, journal, 0)
+		}
 		r.Cond(ok, "JRN-1", key, w.Pos(sc.call.Pos()), "journal write precedes the mutation on every path",
 			fmt.Sprintf("%s applies %s to memory on a path with no preceding successful journal write: the change is observable now but gone after restart", q, sc.sink), w.witness(wit)...)
 	}
@@ -400,6 +422,81 @@ func ruleJRN12(w *World, r *Report, scope func(sc sinkCall) bool) {
 	}
 }
 
+// journalingPhase: h reports an error, contains a journal write, and cannot return success without having journaled —
+// or journals inside a loop over a batch (a pass over no items journals nothing, and there is nothing to apply then).
+func journalingPhase(h *ssa.Function, journal func(ssa.Instruction) bool) bool {
+	if h == nil || len(h.Blocks) == 0 || !inModule(h) {
+		return false
+	}
+	nres := h.Signature.Results().Len()
+	if nres == 0 || !isErrorType(h.Signature.Results().At(nres-1).Type()) {
+		return false
+	}
+	js := findInstrs(h, journal)
+	if len(js) == 0 {
+		return false
+	}
+	for _, j := range js { // a failed write is reported
+		for e := range failureEdges(h, j.(*ssa.Call)) {
+			if found, _ := (pathQuery{fn: h, target: func(in ssa.Instruction) bool {
+				rt, ok := in.(*ssa.Return)
+				return ok && !definitelyError(retVal(rt, nres-1))
+			}}).find(ipos{e.from.Succs[e.succ], -1}); found {
+				return false
+			}
+		}
+	}
+	if alwaysPerforms(h, journal) {
+		return true
+	}
+	for _, j := range js {
+		if loopHeader(j.Block()) == nil {
+			return false
+		}
+	}
+	return true
+}
+
+func phaseJournaled(w *World, f *ssa.Function, journal func(ssa.Instruction) bool, depth int) bool {
+	if depth > 2 {
+		return false
+	}
+	if o, _ := f.Object().(*types.Func); o == nil || o.Exported() {
+		return false
+	}
+	n := 0
+	for g := range w.staticCallersOf(f) {
+		pred := func(in ssa.Instruction) bool {
+			if journal(in) {
+				return true
+			}
+			c, ok := in.(*ssa.Call)
+			return ok && c.Call.StaticCallee() != nil && c.Call.StaticCallee() != f && journalingPhase(c.Call.StaticCallee(), journal)
+		}
+		for _, b := range g.Blocks {
+			for _, in := range b.Instrs {
+				cc := callCommon(in)
+				if cc == nil || cc.StaticCallee() != f {
+					continue
+				}
+				if _, isCall := in.(*ssa.Call); !isCall {
+					return false
+				}
+				n++
+				at := in
+				if ok, _ := precedesWithSuccess(g, pred, func(x ssa.Instruction) bool { return x == at }); ok {
+					continue
+				}
+				if g.Parent() == nil && phaseJournaled(w, g, journal, depth+1) {
+					continue
+				}
+				return false
+			}
+		}
+	}
+	return n > 0
+}
+
 // ---------- JRN-3 effect-then-error ----------
 
 // jrn3Exceptions: one (operation, error origin) wide, each with the reason the late rejection cannot take effect.
@@ -418,6 +515,54 @@ func ruleJRN3(w *World, r *Report) {
 		r.Und("JRN-3", "anchor:LazyAOFWriter.Write", "", "anchor lost")
 		return
 	}
+	// a phase of an operation that was moved into a function of its own (an unexported function that only the operation
+	// calls) is read as part of the operation: its journal write is the operation's, its errors are the operation's, and
+	// the obligations keep the operation's name
+	rootOf := map[*ssa.Function]*ssa.Function{}
+	for _, fi := range w.ModuleFuncs() {
+		if relPkg(fi.Obj) != "pkg/engine" {
+			continue
+		}
+		if g := w.SSAFunc(fi.Obj); g != nil {
+			for _, h := range w.extractedHelpers(g) {
+				if _, ok := rootOf[h]; !ok {
+					rootOf[h] = g
+				}
+			}
+		}
+	}
+	root := func(f *ssa.Function) *ssa.Function {
+		for i := 0; i < 4; i++ {
+			g, ok := rootOf[f]
+			if !ok {
+				break
+			}
+			f = g
+		}
+		return f
+	}
+	journalsIn := func(h *ssa.Function) []ssa.Instruction { // the journal writes of helper h and of its own helpers
+		out := findInstrs(h, callsTo(jw))
+		for g, rt := range rootOf {
+			if rt == h {
+				out = append(out, findInstrs(g, callsTo(jw))...)
+			}
+		}
+		return out
+	}
+	isJournal := func(fn *ssa.Function) func(ssa.Instruction) bool {
+		return func(in ssa.Instruction) bool {
+			if callsTo(jw)(in) {
+				return true
+			}
+			c, ok := in.(*ssa.Call)
+			if !ok || c.Call.StaticCallee() == nil {
+				return false
+			}
+			h := c.Call.StaticCallee()
+			return rootOf[h] == fn && len(journalsIn(h)) > 0
+		}
+	}
 	var ops []*FuncInfo
 	for _, fi := range w.ModuleFuncs() {
 		if relPkg(fi.Obj) != "pkg/engine" || w.isReplayOrRestore(fi.Obj) {
@@ -428,28 +573,78 @@ func ruleJRN3(w *World, r *Report) {
 			continue
 		}
 		fn := w.SSAFunc(fi.Obj)
-		if fn == nil || len(findInstrs(fn, callsTo(jw))) == 0 {
+		if fn == nil || len(findInstrs(fn, isJournal(fn))) == 0 {
 			continue
 		}
-		switch shortName(fi.Obj) {
+		rt := root(fn)
+		switch shortFn(rt) {
 		case "Engine.saveSnapshotLocked", "Engine.RewriteAOF", "Engine.SaveSnapshot":
 			continue // administrative protocols: decided by ORD-1/2/4
+		}
+		if ro, _ := rt.Object().(*types.Func); ro != nil && w.isReplayOrRestore(ro) {
+			continue
 		}
 		ops = append(ops, fi)
 	}
 	sort.Slice(ops, func(i, j int) bool { return qname(ops[i].Obj) < qname(ops[j].Obj) })
-	r.Count("journaling_operations", len(ops))
+	nroots := map[*ssa.Function]bool{}
+	for _, fi := range ops {
+		nroots[root(w.SSAFunc(fi.Obj))] = true
+	}
+	r.Count("journaling_operations", len(nroots))
+	// the origins of an error that a phase helper returns are the origins inside the helper
+	var expand func(fn *ssa.Function, src errOrigin, depth int) []errOrigin
+	expand = func(fn *ssa.Function, src errOrigin, depth int) []errOrigin {
+		if src.obj == nil || depth > 2 {
+			return []errOrigin{src}
+		}
+		h := w.SSAFunc(src.obj)
+		if h == nil || root(h) != root(fn) || h == fn || rootOf[h] == nil {
+			return []errOrigin{src}
+		}
+		all := map[*ssa.BasicBlock]bool{}
+		for _, b := range h.Blocks {
+			all[b] = true
+		}
+		hres := h.Signature.Results().Len()
+		var out []errOrigin
+		for _, b := range h.Blocks {
+			rt, ok := b.Instrs[len(b.Instrs)-1].(*ssa.Return)
+			if !ok || len(rt.Results) != hres || hres == 0 {
+				continue
+			}
+			for _, o := range errorOrigins(retVal(rt, hres-1), b, all, nil, map[ssa.Value]bool{}) {
+				out = append(out, expand(h, o, depth+1)...)
+			}
+		}
+		return out
+	}
+	seenKey := map[string]bool{}
+	rootSeen := map[*ssa.Function]bool{}
 	for _, fi := range ops {
 		fn := w.SSAFunc(fi.Obj)
-		q := shortName(fi.Obj)
+		q := shortFn(root(fn))
 		nres := fi.Obj.Type().(*types.Signature).Results().Len()
-		seenKey := map[string]bool{}
-		for _, j := range findInstrs(fn, callsTo(jw)) {
+		rootSeen[root(fn)] = true
+		for _, j := range findInstrs(fn, isJournal(fn)) {
 			jc := j.(*ssa.Call)
-			cmdName := journaledCommand(jc)
+			cmdName := ""
+			if callsTo(jw)(j) {
+				cmdName = journaledCommand(jc)
+			} else {
+				names := map[string]bool{}
+				for _, hj := range journalsIn(jc.Call.StaticCallee()) {
+					names[journaledCommand(hj.(*ssa.Call))] = true
+				}
+				var ns []string
+				for n := range names {
+					ns = append(ns, n)
+				}
+				sort.Strings(ns)
+				cmdName = strings.Join(ns, "+")
+			}
 			fail := failureEdges(fn, jc)
 			reach := reachableBlocks(fn, posOf(j), fail)
-			nsite := 0
 			for _, b := range fn.Blocks {
 				if !reach[b] {
 					continue
@@ -461,32 +656,43 @@ func ruleJRN3(w *World, r *Report) {
 				if b == j.Block() && !after(rt, j) {
 					continue
 				}
-				for _, src := range errorOrigins(retVal(rt, nres-1), b, reach, j, map[ssa.Value]bool{}) {
-					if flush != nil && src.obj == flush {
-						continue // a failing Flush is a durability report, not a rejection of the request
+				for _, src0 := range errorOrigins(retVal(rt, nres-1), b, reach, j, map[ssa.Value]bool{}) {
+					for _, src := range expand(fn, src0, 0) {
+						if flush != nil && src.obj == flush {
+							continue // a failing Flush is a durability report, not a rejection of the request
+						}
+						if src.obj == jw {
+							continue
+						}
+						key := fmt.Sprintf("%s:error-after-journal[%s]:%s", q, cmdName, src.name)
+						if why, ok := jrn3Exceptions[q+":"+src.name]; ok {
+							if !seenKey[key] {
+								r.Ok("JRN-3", key, w.Pos(src.pos), "exception: "+why)
+								r.Except(q + ":" + src.name + ": " + why)
+							}
+							seenKey[key] = true
+							continue
+						}
+						if seenKey[key] {
+							continue
+						}
+						seenKey[key] = true
+						r.Bad("JRN-3", key, w.Pos(src.pos), fmt.Sprintf("%s can return the error of %s AFTER its %s command was journaled: the caller sees a rejection, but the command is in the log and takes effect on the next restart", q, src.name, cmdName), w.Pos(j.Pos()), w.Pos(rt.Pos()))
 					}
-					if src.obj == jw {
-						continue
-					}
-					if why, ok := jrn3Exceptions[q+":"+src.name]; ok {
-						r.Ok("JRN-3", fmt.Sprintf("%s:error-after-journal[%s]:%s", q, cmdName, src.name), w.Pos(src.pos), "exception: "+why)
-						r.Except(q + ":" + src.name + ": " + why)
-						seenKey[fmt.Sprintf("%s:error-after-journal[%s]:%s", q, cmdName, src.name)] = true
-						continue
-					}
-					key := fmt.Sprintf("%s:error-after-journal[%s]:%s", q, cmdName, src.name)
-					if seenKey[key] {
-						continue
-					}
-					seenKey[key] = true
-					nsite++
-					r.Bad("JRN-3", key, w.Pos(src.pos), fmt.Sprintf("%s can return the error of %s AFTER its %s command was journaled: the caller sees a rejection, but the command is in the log and takes effect on the next restart", q, src.name, cmdName), w.Pos(j.Pos()), w.Pos(rt.Pos()))
 				}
 			}
-			_ = nsite
 		}
-		if len(seenKey) == 0 {
-			r.Ok("JRN-3", q+":no-error-after-journal", w.Pos(fi.Decl.Pos()), "no rejection can be returned once a command was journaled")
+	}
+	for rt := range rootSeen {
+		q := shortFn(rt)
+		any := false
+		for k := range seenKey {
+			if strings.HasPrefix(k, q+":error-after-journal[") {
+				any = true
+			}
+		}
+		if !any {
+			r.Ok("JRN-3", q+":no-error-after-journal", w.Pos(rt.Pos()), "no rejection can be returned once a command was journaled")
 		}
 	}
 }
@@ -581,6 +787,9 @@ func errorOrigins(v ssa.Value, at *ssa.BasicBlock, reach map[*ssa.BasicBlock]boo
 	}
 	seen[v] = true
 	definedAfter := func(in ssa.Instruction) bool {
+		if j == nil { // (the whole function counts: the errors a phase helper can return)
+			return true
+		}
 		if in.Block() == j.Block() {
 			return after(in, j)
 		}
